@@ -23,9 +23,7 @@ From Flocq Require Import IEEE754.BinarySingleNaN IEEE754.PrimFloat.
 
 (* how the code turns the restored float into an integer: plain conversion (truncation) or math.Round first.
    The mode of each conversion route is derived from the source on every run (gen/ConvMode.v). *)
-Inductive conv_mode := Trunc | Round.
-Definition conv_mode_eqb (a b : conv_mode) : bool :=
-  match a, b with Trunc, Trunc | Round, Round => true | _, _ => false end.
+From Fit Require Export Model.ConvModeT.
 
 Definition f64_invalid_bits : N := 18446744073709551615%N.   (* basetype.Float64Invalid *)
 Definition f64_nan_bits : N := 9221120237041090560%N.        (* 0x7FF8000000000000 *)
